@@ -124,6 +124,20 @@ impl Storage for InMemoryStorage {
         Ok(())
     }
 
+    async fn drop_tables(&self, table_ids: &[TableRefId]) -> StorageResult<()> {
+        let mut tables = self.tables.lock().unwrap();
+        for (i, table_id) in table_ids.iter().enumerate() {
+            if !tables.contains_key(table_id) || table_ids[..i].contains(table_id) {
+                return Err(TracedStorageError::not_found("table", table_id.table_id));
+            }
+        }
+        for table_id in table_ids {
+            tables.remove(table_id);
+            self.catalog.drop_table(*table_id);
+        }
+        Ok(())
+    }
+
     fn as_disk(&self) -> Option<&super::SecondaryStorage> {
         None
     }
